@@ -61,6 +61,28 @@ property's main clause. Then break ONLY that clause, with one of these mechanism
      unit / ordering together with a caller that is not adapted, so that only one path through the caller is affected.
 The change may be anywhere in the package but must NOT repeat a site or mechanism listed above.
 Make sure the demo shows the violation through one of the public observables listed under "observe_at".""",
+    7: """Earlier rounds already covered: wrong-variable / dropped-condition slips at the anchored site; stale caches; zero-is-falsy;
+`is` vs `==`; __eq__ / __hash__ / dataclass changes; unstable sorting; in-place mutation, aliasing, copy vs deepcopy, mutable
+default arguments, class-level attributes; dtype slips; duck typing; shared transform helpers; module-level constants; options not
+forwarded / wrong label index; zip / dict-order / loop-variable / early-break slips; angle wrap-around, quaternion order;
+precomputing before sorting; alternative entry points disagreeing; broadened try/except; NaN swallowed by a clamp.
+This time play a developer doing one of these ordinary maintenance jobs, and let the job go subtly wrong for a specific class of
+inputs:
+ (a) VECTORISING / SPEEDING UP a Python loop with numpy or pandas (broadcasting along the wrong axis, `np.argmin` / `np.argsort`
+     over a flattened array, boolean masks built on a different index than the one they filter, `np.unique` / `set` reordering,
+     `np.where` returning indices of the wrong array, a bounding-circle / axis-aligned pre-filter that is too tight for some
+     shapes, `bisect` on an unsorted list, integer array arithmetic truncating);
+ (b) MODERNISING library calls: replacing one third-party call by a "newer equivalent" that differs in a corner case
+     (pyquaternion vs a hand-written formula, `Quaternion.yaw_pitch_roll` vs `rotation_matrix`, shapely `contains` vs `covers` vs
+     `intersects`, `polygon.exterior.coords` including the closing point, `np.linalg.norm` axis default, `math.hypot` vs norm,
+     `round` vs `np.round` vs `int()`, pandas `append`/`concat`/`groupby` ordering, `dict.get` default evaluated eagerly);
+ (c) INPUT-FORMAT TOLERANCE: accepting tuple / list / ndarray / float32 / negative zero / empty arrays of shape (0,) vs (0, 3)
+     / Optional fields that are None for some sources but not others, and treating one of these forms slightly differently;
+ (d) TIDYING API SURFACE: reordering or renaming parameters of an internal helper while one call site still passes them
+     positionally, turning a positional argument into keyword-only with a default, merging two near-identical helpers into one
+     whose behaviour matches only one of them.
+The change may be anywhere in the package but must NOT repeat a site or mechanism listed above.
+Make sure the demo shows the violation through one of the public observables listed under "observe_at".""",
 }
 
 TEMPLATE = """You are helping to measure how sensitive a verification effort is. You will SEED A BUG.
